@@ -95,6 +95,13 @@ func VerifAPIReads() {
 	}
 
 	which := vrt.Choose("handler", 6)
+	// the handlers that take an optional height are asked for an explicit height or for the default
+	// ("the synced height"), which must be the COMMITTED one
+	askHeight := 240000
+	if (which == 2 || which == 3) && vrt.Choose("defaultHeight", 2) == 1 {
+		askHeight = 0
+		vrt.Cover("default-height")
+	}
 	ask := func() interface{} {
 		switch which {
 		case 0:
@@ -102,9 +109,9 @@ func VerifAPIReads() {
 		case 1:
 			return s.getTransactionStatus(ctx, vrt.Blob(ParamsGetPegnetTransactionStatus{Hash: &H}))
 		case 2:
-			return s.getPegnetRates(ctx, vrt.Blob(ParamsGetPegnetRates{Height: 240000}))
+			return s.getPegnetRates(ctx, vrt.Blob(ParamsGetPegnetRates{Height: uint32(askHeight)}))
 		case 3:
-			return s.getBank(ctx, vrt.Blob(ParamsGetBank{Height: 240000}))
+			return s.getBank(ctx, vrt.Blob(ParamsGetBank{Height: int32(askHeight)}))
 		case 4:
 			return s.getPegnetIssuance(ctx, nil)
 		default:
@@ -153,11 +160,15 @@ func VerifAPIReads() {
 	if err := p.UpdateBankEntry(tx, 240000, int64(bankUsed+1), int64(bankReq+1)); err != nil {
 		panic(err)
 	}
+	// the sync loop has already bumped its in-memory height for the block it is applying
+	// (DBlockSync: Synced++ before InsertSynced and COMMIT; Synced-- if the block fails)
+	d.Sync.Synced = 240001
 	during := ask()
 	check("C18.response-reflects-committed-blocks-only", during)
 	if err := tx.Rollback(); err != nil {
 		panic(err)
 	}
+	d.Sync.Synced = 240000
 	vrt.Assert("C18.handlers-never-write", vrt.Monitor("db-write-during-tx") == 0)
 	vrt.Cover("asked")
 }
